@@ -886,12 +886,12 @@ def oracle_intpos(case):
 
 
 CLAUSES = [
-    Clause('insert', oracle_insert, insert_cases, quick=16000, thorough=250000,
+    Clause('insert', oracle_insert, insert_cases, quick=16000, thorough=400000,
            min_share={'nt': 0.1, 'image': 0.15, 'scaled': 0.12, 'id_neg': 0.03, 'refuse_nosite': 0.1, 'cross_pos_to_id': 0.08,
                       'cross_id_to_pos': 0.08, 'alias_probe': 0.08, 'kw': 0.1, 'twin': 0.05, 'had_old_id': 0.07, 'mixed_pbc': 0.2,
                       'type_v': 0.1, 'type_i': 0.1, 'type_s': 0.1, 'type_db': 0.08, 'via_point': 0.15},
            desc='one insertion of any type, site by index or position (within/beyond atol, images, relative), against the model'),
-    Clause('refuse', oracle_insert, refuse_cases, quick=5000, thorough=60000, nontrivial='refusal',
+    Clause('refuse', oracle_insert, refuse_cases, quick=5000, thorough=80000, nontrivial='refusal',
            min_share={'refusal': 0.45, 'refuse_both': 0.04, 'refuse_oor': 0.03, 'refuse_neither': 0.008, 'refuse_notallowed': 0.04,
                       'refuse_occupied': 0.03, 'refuse_sametype': 0.05, 'refuse_nosite': 0.15, 'ambiguous': 0.01,
                       'image_nonperiodic': 0.08},
@@ -899,7 +899,7 @@ CLAUSES = [
                 'index out of range, point() keyword misuse; input untouched'),
     Clause('intpos', oracle_intpos, intpos_cases, quick=2000, thorough=20000, min_share={'int_used': 0.3, 'nt': 0.2},
            desc='positions with integral coordinates given as integer-typed list / array'),
-    Clause('history', oracle_history, history_cases, quick=3000, thorough=50000,
+    Clause('history', oracle_history, history_cases, quick=3000, thorough=80000,
            min_share={'composed': 0.15, 'nt': 0.07, 'mixed_types': 0.2},
            desc='1-4 successive insertions; old_id composes to the first system; every intermediate input untouched'),
 ]
